@@ -38,6 +38,22 @@ CHECKS = {
                 '(Token::tags row); tags on characters that do not end a token are not representable in the format.',
         'technique': TECH + '; encode/decode pair as a lemma over two function contracts, composed in verified callers',
     },
+    'C04': {
+        'level': 'proof',
+        'text': 'Round trip of the partial-annotation format as a theorem over the two contracts: write_partial_annotation_text is proved to emit '
+                'pa_line(s) (unit W_pawriter: every character, its tags up to the last present one with delimiters escaped, the label symbol) and '
+                'from_partial_annotation/update_partial_annotation are proved to compute pa_run(input) -- text, labels, tag table, n_tags -- and to fail '
+                'only on inputs pa_run rejects (unit S_parse). Lemma lemma_pa_roundtrip (induction over characters and over the characters of every '
+                'tag, unbounded): for every sentence with NUL-free text, any labels and non-empty tags made of any characters, pa_run(pa_line(s)) accepts '
+                'and yields the same text, the same label at every boundary and at every character the tags up to the last present one. A verified '
+                'caller of the real functions (checked against the callee contracts only), c04_write_then_parse, states the property itself.',
+        'design_ref': 'DESIGN.md section 5.C04',
+        'note': 'A genuine defect was found while writing the writer contract and by the sweep: tags were written unescaped (fixed in /repo e571e31, '
+                'known_findings.txt). Trusted: std specs listed in evidence (String::push/push_str from vstd, chunks_exact / ChunksExact::next assumed with an '
+                'explicit model, rposition/map_or stub), extraction rules incl. R11 (zip chain spelled out as next() calls left to right), and the two '
+                'format specifications themselves (canaries + the spec-sensitivity of the lemma guard against vacuity).',
+        'technique': TECH + '; encode/decode pair as a lemma over two function contracts, composed in a verified caller',
+    },
     'C05': {
         'level': 'proof',
         'text': 'parse_raw, parse_tokenized, parse_partial_annotation and the six constructors/updates are proved total (no overflow, '
@@ -48,8 +64,8 @@ CHECKS = {
         'design_ref': 'DESIGN.md section 5.C05',
         'note': 'Trusted: std specs missing from vstd (Cow deref/to_mut, Option::replace, u32::from(char), str/String length <= isize::MAX), '
                 'opaque error constructor, extraction rules R0/R1/R4/R5/R7/R9/R10. Both parsers are additionally proved to compute exactly the '
-                'format transition functions tok_run / pa_run on the whole input (content clause; used by C03). Not proved: '
-                'write_partial_annotation_text (outside Verus: chunks_exact + three-way zip).',
+                'format transition functions tok_run / pa_run on the whole input (content clause; used by C03). The two writers are proved in '
+                'units W_writer and W_pawriter.',
         'technique': TECH + '; representation invariant + history-free postconditions',
     },
     'C07': {
@@ -162,7 +178,6 @@ CHECKS = {
 }
 
 NOT_APPLICABLE = {
-    'C04': 'write_partial_annotation_text uses chunks_exact and a three-way zip of user iterators, which the installed Verus rejects; the parser side IS under contract (pa_run content clause in S_parse) but without a contract on the writer the inversion cannot be stated over the real code (DESIGN 5.C04)',
     'C09': 'coefficient->weight translation is inlined in Trainer::train between liblinear FFI calls and f64 code; no function boundary to put a contract on',
     'C10': 'example store is filled through hashbrown entry API + f64 inside an FFI-backed crate feature; no contractable boundary',
     'C11': 'totality of an FFI (liblinear) + floating-point pipeline; outside Verus and Kani',
